@@ -233,6 +233,10 @@ def rule_c(ctx, idx, A, errcls):
                 if unfinished and all(cfg.must_pass_through(u, lp["head"], set(raises)) and cfg.must_pass_through(u, cfg.exit, set(raises)) for u in unfinished):
                     ctx.hold("C14.c", con, K.rel(fi), lp["head"].line, "unfiltered loop reports every unfinished command with %s" % ERR)
                     return
+    comp_ = coverage.complementary_starts(A)
+    if comp_ is not None:
+        ctx.hold("C14.c", con, K.rel(fi), comp_[0], comp_[1])
+        return
     starters = [lp for lp in loops if lp["starts"]]
     if starters:
         lp = starters[0]
@@ -642,7 +646,7 @@ def rule_f(ctx, idx, A):
     con = "%s::finished-only-after-execute" % fi.key
     if not flag_true:
         raise AnalysisError("C14.f: Command.run never sets the finished flag")
-    early = [f for f in flag_true if not cfg.must_pass_through(cfg.entry, f, set(good))]
+    early = [f for f in flag_true if not cfg.must_pass_through(cfg.entry, f, set(good)) and not K.success_flag_ok(cfg, fi, f, good)]
     ctx.ob("C14.f", con, K.rel(fi), (early or flag_true)[0].line, not early, "the finished flag is set only after execute's value was stored" if not early else
            "`%s = True` at line %s is reached on paths where execute did not return (an exception unwinding through run): after a rejected cycle every command on the stack is left finished with no result, so a second run() of the same program returns normally or fails with an unrelated error instead of %s" % (A.flag, early[0].line, ERR))
 
